@@ -64,7 +64,7 @@ Proof. exact outlives_b_exact. Qed.
 Print Assumptions C04_spec_executable.
 
 (* ---------- written lifetimes -> HIR lifetimes (core/src/hir/elision.rs, Lifetimes/Elision.v) ---------- *)
-From DV Require Import Lifetimes.Elision Lifetimes.ElisionProofs.
+From DV Require Import gen.Tables Lifetimes.Elision Lifetimes.ElisionProofs.
 
 (* the state machine finds a source for elided output lifetimes exactly when Rust's rule names one: `&self`, or a
    single lifetime position among the parameters, the lifetimes of `Self` not counted; and it is that lifetime *)
